@@ -309,7 +309,7 @@ def gen_stream(rng, modes=None, rich=False, lengths=None, tagged=True, italics=F
         tag = ('R%d' % counter[0]) if tagged and n >= 4 else ''
         return plain_text(rng, n, tag)
 
-    for m in modes:
+    for mi, m in enumerate(modes):
         if m == 'roll':
             depth = rng.choice([2, 3, 4])
             base = rng.choice([15, 15, 14, 13, 12])
@@ -320,8 +320,12 @@ def gen_stream(rng, modes=None, rich=False, lengths=None, tagged=True, italics=F
                 t = row_text(32 - col if not lengths else 40)
                 row = {'col': col, 'items': text_items(rng, t, rich, single), 'gap': rng.choice([0, 1, 5, 20, 60])}
                 if italics and rng.random() < 0.5:
-                    row['italic'] = True
-                    row['col'] = 0
+                    if rng.random() < 0.5:
+                        row['italic'] = True
+                        row['col'] = 0
+                    else:
+                        # italics switched on by a mid-row code right after an indent PAC (any column)
+                        row['items'] = [['mid', 14]] + row['items'][:30 - row['col']]
                 seg['rows'].append(row)
             st['segments'].append(seg)
         elif m == 'paint':
@@ -341,10 +345,13 @@ def gen_stream(rng, modes=None, rich=False, lengths=None, tagged=True, italics=F
             st['segments'].append(seg)
         else:
             seg = {'mode': 'pop', 'captions': []}
-            for _ in range(rng.randrange(1, 3)):
+            ncap = rng.randrange(1, 3)
+            for ci in range(ncap):
                 k = rng.choice([1, 2, 3])
                 rows = sorted(rng.sample(range(1, 16), k)) if rng.random() < 0.6 else list(range(5, 5 + k))
                 cap = {'rows': [], 'gap': rng.choice([10, 40]), 'edm': rng.choice(['inline', 'none'])}
+                if ci == ncap - 1 and mi < len(modes) - 1 and rng.random() < 0.5:
+                    cap['abandoned'] = True        # loaded but never shown: the next mode change discards it
                 for r in rows:
                     col = rng.choice([0, 0, 4])
                     t = row_text(32 - col if not lengths else 40)
@@ -354,11 +361,19 @@ def gen_stream(rng, modes=None, rich=False, lengths=None, tagged=True, italics=F
     return st
 
 
+class _Rows(list):
+    """The display text of every transmitted row, in order; .modes[i] is (caption mode, segment index) of row i."""
+
+    def __init__(self):
+        super().__init__()
+        self.modes = []
+
+
 def encode_stream(st):
     """-> lines [(timecode, words, frame)], rows [display text of every transmitted row in order]."""
     d = st['doubled']
     lines = []
-    rows_sent = []
+    rows_sent = _Rows()
     frame = st['start_frame']
 
     def ctl(ws, name):
@@ -376,7 +391,7 @@ def encode_stream(st):
         return {'row': row, 'col': 0 if r.get('italic') else r['col'], 'to': 0, 'pac_italic': bool(r.get('italic')),
                 'pac_underline': False, 'pac_color': None, 'items': r['items'], 'lead_pad': r.get('lead_pad', False)}
 
-    for seg in st['segments']:
+    for si, seg in enumerate(st['segments']):
         if seg['mode'] == 'roll':
             ru = {2: 'RU2', 3: 'RU3', 4: 'RU4'}[seg['depth']]
             for i, r in enumerate(seg['rows']):
@@ -386,6 +401,7 @@ def encode_stream(st):
                 ctl(ws, 'CR')
                 ws.extend(encode_row(rowspec(seg['base'], r), d))
                 rows_sent.append(items_display(r['items']))
+                rows_sent.modes.append(('roll', si))
                 emit(ws, r['gap'])
         elif seg['mode'] == 'paint':
             for ln in seg['lines']:
@@ -394,6 +410,7 @@ def encode_stream(st):
                 for r in ln['rows']:
                     ws.extend(encode_row(rowspec(r['row'], r), d))
                     rows_sent.append(items_display(r['items']))
+                    rows_sent.modes.append(('paint', si))
                 emit(ws, ln['gap'])
         else:
             for cap in seg['captions']:
@@ -402,9 +419,12 @@ def encode_stream(st):
                 ctl(ws, 'RCL')
                 for r in cap['rows']:
                     ws.extend(encode_row(rowspec(r['row'], r), d))
-                    rows_sent.append(items_display(r['items']))
-                if cap['edm'] == 'inline':
-                    ctl(ws, 'EDM')
-                ctl(ws, 'EOC')
+                    if not cap.get('abandoned'):
+                        rows_sent.append(items_display(r['items']))
+                        rows_sent.modes.append(('pop', si))
+                if not cap.get('abandoned'):
+                    if cap['edm'] == 'inline':
+                        ctl(ws, 'EDM')
+                    ctl(ws, 'EOC')
                 emit(ws, cap['gap'])
     return lines, rows_sent
